@@ -137,7 +137,7 @@ def check_equation(ctx, case):
             vs = A.variables(root) | A.variables(res)
             assigns = G.assignments(vs, 6)
             try:
-                verdict, info = Q.compare_equations(ctx, root, res, ap.fresh_consts, assigns, planted)
+                verdict, info = Q.compare_equations(ctx, root, res, ap.fresh_consts, assigns, planted, balanced_move=(name == "BM"))
             except X.Malformed:
                 ctx.count("skipped:unevaluable-structure")
                 continue
